@@ -591,7 +591,7 @@ func judge(c *Case, res *result) (v verdict) {
 		if res.seen.bodyErr != "" {
 			return fail("resp-body-unreadable", "the reader could not decode the error body with the consumer it was given: %s", res.seen.bodyErr)
 		}
-		if errorMessage(res) != string(c.Resp.Text) {
+		if !carriesText(res.seen.raw, string(c.Resp.Text)) {
 			return fail("resp-error-message-differs", "handler returned error message %s, reader decoded %s", quote(string(c.Resp.Text)), show(res.seen.body))
 		}
 		return v
@@ -676,10 +676,13 @@ func firstDiff(a, b []byte) int {
 
 // knownSuffix names the triggering input of a defect of the pinned tree that
 // has been analysed (see known_findings/C04.json). A failure gets a suffix only
-// when the input predicate AND the symptom predicate hold, so a different
-// failure of the same kind keeps its plain class and is reported.
+// when the input predicate (the shape of the case: template, declaration,
+// value, method, media type) AND the symptom predicate hold, so a different
+// failure of the same kind keeps its plain class and is reported. The symptom
+// is what fails - which value differs and how, whether the handler ran, the
+// status code - never the wording of an error body or error string, which the
+// property does not fix.
 func knownSuffix(c *Case, res *result, class string, p *P, got any) string {
-	msg := errorMessage(res)
 	switch class {
 	case "header-value-differs", "header-array-differs":
 		// declared header name that is not in canonical form is looked up verbatim in http.Header
@@ -708,16 +711,14 @@ func knownSuffix(c *Case, res *result, class string, p *P, got any) string {
 				continue
 			}
 			for _, lit := range q.V {
-				// the error names the parameter and quotes the offending text
-				if float32LiteralOverflows(string(lit)) && strings.HasPrefix(msg, q.Name+" in ") && strings.Contains(msg, " must be of type ") &&
-					strings.HasSuffix(msg, ": "+strconv.Quote(float32Text(string(lit)))) {
+				if float32LiteralOverflows(string(lit)) {
 					return "/float32-shortest-literal-overflows"
 				}
 			}
 		}
 		// (see also form-value-differs below)
 		// the untyped binder decodes every body that is not an array into a map
-		if b := find(c, "body"); b != nil && (b.Type == "text" || b.Type == "bytes" || b.Type == "jstring") && strings.HasPrefix(msg, b.Name+" in body must be of type") {
+		if b := find(c, "body"); b != nil && (b.Type == "text" || b.Type == "bytes" || b.Type == "jstring") {
 			return "/body-schema-string"
 		}
 	case "form-value-differs":
@@ -731,15 +732,12 @@ func knownSuffix(c *Case, res *result, class string, p *P, got any) string {
 				continue
 			}
 			noFormat := (q.Type == "number" && q.Format == "") || (q.Type == "array" && q.Items == "number" && q.IFmt == "")
-			if noFormat && strings.Contains(res.w.serverErr, "nil pointer dereference") {
+			if noFormat {
 				return "/number-without-format"
 			}
 		}
 	case "not-invoked-404":
 		full := strings.TrimSuffix(c.Base, "/") + c.Template
-		if !strings.HasPrefix(msg, "path ") || !strings.HasSuffix(msg, " was not found") {
-			return ""
-		}
 		if placeholderAfterLiteral.MatchString(c.Template) {
 			return "/placeholder-after-literal-in-segment"
 		}
@@ -750,22 +748,45 @@ func knownSuffix(c *Case, res *result, class string, p *P, got any) string {
 			return "/template-trailing-slash"
 		}
 	case "client-error":
-		if mediaType(c.Consumes) != bareType(c.Consumes) && res.submitErr != nil && strings.HasPrefix(res.submitErr.Error(), "none of producers:") {
+		if mediaType(c.Consumes) != bareType(c.Consumes) && res.submitErr != nil && (res.w == nil || res.w.reqText == nil) {
 			return "/consumes-with-parameters"
 		}
 	}
 	return ""
 }
 
-// errorMessage is the "message" member of the JSON error body the reader saw.
-func errorMessage(res *result) string {
-	var m struct {
-		Message string `json:"message"`
+// carriesText: the body carries the text - verbatim, or as a string value
+// anywhere in a JSON document. How the error responder lays the body out is
+// not the property's business.
+func carriesText(raw []byte, text string) bool {
+	if bytes.Contains(raw, []byte(text)) && text != "" {
+		return true
 	}
-	if json.Unmarshal(res.seen.raw, &m) != nil {
-		return ""
+	var doc any
+	if json.Unmarshal(raw, &doc) != nil {
+		return text == "" && len(raw) == 0
 	}
-	return m.Message
+	var has func(v any) bool
+	has = func(v any) bool {
+		switch x := v.(type) {
+		case string:
+			return x == text
+		case []any:
+			for _, e := range x {
+				if has(e) {
+					return true
+				}
+			}
+		case map[string]any:
+			for _, e := range x {
+				if has(e) {
+					return true
+				}
+			}
+		}
+		return false
+	}
+	return has(doc)
 }
 
 func isZero(got any) bool {
@@ -809,11 +830,6 @@ func float32LiteralOverflows(lit string) bool {
 	}
 	w, err := strconv.ParseFloat(strconv.FormatFloat(v, 'f', -1, 32), 64)
 	return err == nil && math.Abs(w) > math.MaxFloat32
-}
-
-func float32Text(lit string) string {
-	v, _ := strconv.ParseFloat(lit, 32)
-	return strconv.FormatFloat(v, 'f', -1, 32)
 }
 
 // literalNeedsEscaping: the literal text of a base path or template (outside
